@@ -19,7 +19,7 @@ import z3
 
 from lib.common import (HarnessError, Stats, count_obligation, finish, main_wrapper, run_sharded, seed, z3_check)
 from lib.symx import model as M
-from lib.symx.tr import Tr, model_value
+from lib.symx.tr import Tr, model_value, numeric_witness
 
 PID = "C17"
 SEP = "<SEP>"
@@ -94,11 +94,13 @@ def shard(payload):
                   T("leak_energy"): ("LEAK_ENERGY" in flags, Lk)}
         tr = Tr()
         obs = []
+        resid = {}
         for col, (present, val) in expect.items():
             if (col in cols) != present:
                 obs.append((f"{col} present == {present}", z3.IntVal(1), z3.IntVal(0), None))
             elif present:
-                obs.append((f"{col} == its definition", tr(sympy.expand(M.canon(cols[col]) - val)), z3.IntVal(0), col))
+                resid[col] = sympy.expand(M.canon(cols[col]) - val)
+                obs.append((f"{col} == its definition", tr(resid[col]), z3.IntVal(0), col))
             else:
                 obs.append((f"{col} absent", z3.IntVal(0), z3.IntVal(0), None))
         s = z3.Solver()
@@ -110,15 +112,20 @@ def shard(payload):
         for d, a, b, col in obs:
             s.push()
             s.add(a != b)
-            r = z3_check(s, st, 60000)
+            r = z3_check(s, st, 20000)
+            wit = None
+            if r == "unknown" and col in resid:
+                wit, _ = numeric_witness(resid[col])
+                if wit:
+                    r = "sat"
             count_obligation(st, r, label + d, symbolic=col is not None)
             if r == "sat":
-                vals = {n: float(model_value(s.model(), v)) for n, v in tr.env.items()} if col else {}
+                vals = wit or ({n: float(model_value(s.model(), v)) for n, v in tr.env.items()} if col else {})
                 viol.append(dict(property=PID, arch=arch, workload=wl, skeleton=sk, flags=flags, obligation=d, values=vals,
                                  got=str(cols.get(col))[:300] if col else sorted(c for c in cols if c.startswith("Total")),
                                  what=f"metrics={'|'.join(flags)}: {d} fails"))
             s.pop()
-        if "ENERGY_DELAY_PRODUCT" in flags:
+        if "ENERGY_DELAY_PRODUCT" in flags and not any(v["flags"] == flags for v in viol):
             # seeded wrong definition: EDP == dynamic * latency (leak forgotten) must be refuted
             s.push()
             s.add(tr(sympy.expand(M.canon(cols[T("energy_delay_product")]) - D * Lat)) != 0)
@@ -169,10 +176,52 @@ def replay_numeric(v):
     return None
 
 
+def dtype_probe(st):
+    """Machine-number side of 'EDP == energy x latency': the symbolic check reads integers as
+    mathematical integers, numpy does not.  z3 picks integer-valued energy/latency totals from the
+    region where the exact product leaves the int64 range (and one from the safe region); the real
+    _apply_edp_columns runs on int64 and float64 frames holding them and is compared with the exact
+    product."""
+    import numpy as np
+    import pandas as pd
+    from accelforge.frontend.mapper.metrics import Metrics
+    from accelforge.mapper.FFM._join_pmappings.join_pmappings import _apply_edp_columns
+    out = []
+    for region, lo in (("product >= 2^63", 2 ** 63), ("product < 2^62", 0)):
+        e, l = z3.Int("e"), z3.Int("l")
+        s = z3.Solver()
+        s.add(e >= 2 ** 20, l >= 2 ** 20, e < 2 ** 41, l < 2 ** 41)
+        s.add(e * l >= lo if lo else e * l < 2 ** 62)
+        if z3_check(s, st, 30000) != "sat":
+            raise HarnessError("dtype probe: no witness")
+        ev, lv = s.model()[e].as_long(), s.model()[l].as_long()
+        for dt in ("int64", "float64"):
+            fr = pd.DataFrame({T("energy"): np.array([ev], dtype=dt), T("latency"): np.array([lv], dtype=dt)})
+            fr = _apply_edp_columns(fr, Metrics.ENERGY | Metrics.LATENCY | Metrics.ENERGY_DELAY_PRODUCT)
+            got = float(fr[T("energy_delay_product")].iloc[0])
+            exact = ev * lv
+            st.extra["dtype_probes"] = st.extra.get("dtype_probes", 0) + 1
+            count_obligation(st, "unsat" if abs(got - exact) <= 1e-9 * exact else "sat", f"dtype probe {dt} {region}")
+            st.queries += 1
+            if abs(got - exact) > 1e-9 * exact:
+                out.append(dict(property=PID, kind="dtype", dtype=dt, energy=ev, latency=lv, got=got, exact=str(exact), flags=["ENERGY", "LATENCY", "ENERGY_DELAY_PRODUCT"],
+                                what=f"EDP column on a {dt} frame: energy={ev}, latency={lv} gives {got}, exact product {exact} ({region})"))
+    return out
+
+
 def run(args):
     t0 = time.time()
     if args.replay:
         v = json.load(open(args.replay))
+        if v.get("kind") == "dtype":
+            import numpy as np, pandas as pd
+            from accelforge.frontend.mapper.metrics import Metrics
+            from accelforge.mapper.FFM._join_pmappings.join_pmappings import _apply_edp_columns
+            fr = pd.DataFrame({T("energy"): np.array([v["energy"]], dtype=v["dtype"]), T("latency"): np.array([v["latency"]], dtype=v["dtype"])})
+            fr = _apply_edp_columns(fr, Metrics.ENERGY | Metrics.LATENCY | Metrics.ENERGY_DELAY_PRODUCT)
+            got = float(fr[T("energy_delay_product")].iloc[0])
+            print("EDP", got, "exact", v["energy"] * v["latency"])
+            return 0 if abs(got - v["energy"] * v["latency"]) <= 1e-9 * v["energy"] * v["latency"] else 1
         r = replay_numeric(v)
         print(r or "holds")
         return 1 if r else 0
@@ -186,8 +235,8 @@ def run(args):
         for i in range(n):
             payloads.append((arch, wl, sk, flagsets[i::n]))
     stats = Stats()
+    violations = dtype_probe(stats)
     res = run_sharded(shard, payloads, args.jobs)
-    violations = []
     for r in res:
         stats.merge(r)
         violations.extend(r["violations"])
@@ -198,6 +247,7 @@ def run(args):
         bounds=dict(metric_flag_sets=len(flagsets), skeletons=len(sks), symbolic="all tile shapes, rank bounds and costs (unbounded)",
                     outside="the three 'optimum' sentences of C17 (whole mapper runs); multi-row frames (the functions are column-wise)"),
         assumptions=["object-dtype DataFrame cells keep sympy symbols under pandas' cell-wise operators",
+                     "integers are mathematical in the symbolic part; the int64/float64 behaviour of the EDP product is probed separately on solver-chosen magnitudes",
                      "flag sets that request no energy/latency total make evaluate_mapping stop early and are skipped"],
         rule="per (skeleton, flag set): one obligation per total column (presence and value); non-trivial when the column is present",
         explanation="Producer chain executed on symbols for all 256 metric flag sets.",
